@@ -111,7 +111,7 @@ func Revisions(j *job.Job, s *job.Sink) {
 			continue
 		}
 		checkHeaders(j, s, c, hs, imp, importer)
-		if c%4 == 0 {
+		if c%4 == 0 && j.Property == "C13" {
 			checkIncludes(j, s, c, prng.For(j.Seed, "C13", "includes", c))
 		}
 		if c%500 == 0 {
@@ -211,7 +211,12 @@ func checkHeaders(j *job.Job, s *job.Sink, c int64, hs []hdr, imp hdr, importer 
 			return
 		}
 		reported[class] = true
-		s.Violation(c, j.CaseID(c), "C13.revisions", class, detail, map[string]any{"headers": hs, "importer": importer}, facts)
+		if j.Property != "C13" && !strings.HasPrefix(class, "path-") && !strings.HasPrefix(class, "prefix-") {
+			// C17 borrows this family for its lookups through imports that name a revision;
+			// the revision table itself is C13's subject
+			return
+		}
+		s.Violation(c, j.CaseID(c), j.Property+".revisions", class, detail, map[string]any{"headers": hs, "importer": importer}, facts)
 	}
 	best := map[string]hdr{}
 	for _, h := range hs {
@@ -307,6 +312,27 @@ func checkHeaders(j *job.Job, s *job.Sink, c int64, hs []hdr, imp hdr, importer 
 				}
 				if got == nil || got.Leaf[0].Name != fmt.Sprintf("mark%d", want.ID) {
 					bad("import-binds-wrong-revision", fmt.Sprintf("load order %v: %s", p, importer), nil)
+				}
+				// the prefix of that import must denote the same module wherever it is
+				// resolved: by prefix lookup, and as the first step of a schema path
+				u := ms.Modules["u"]
+				if pm := yang.FindModuleByPrefix(u, "x"); pm == nil || len(pm.Leaf) == 0 || pm.Leaf[0].Name != fmt.Sprintf("mark%d", want.ID) {
+					bad("prefix-denotes-wrong-revision", fmt.Sprintf("load order %v: %s: FindModuleByPrefix(u, x) is not module %d", p, importer, want.ID), nil)
+				}
+				ue := yang.ToEntry(u)
+				for _, h := range hs {
+					if h.Name != want.Name {
+						continue
+					}
+					path := fmt.Sprintf("/x:mark%d", h.ID)
+					found := ue.Find(path)
+					s.Count("path_lookups_through_import", 1)
+					switch {
+					case h.ID == want.ID && (found == nil || yang.RootNode(found.Node) != got):
+						bad("path-resolves-in-wrong-revision", fmt.Sprintf("load order %v: %s: Find(%s) from u does not return the leaf of module %d", p, importer, path, want.ID), nil)
+					case h.ID != want.ID && found != nil:
+						bad("path-resolves-in-wrong-revision", fmt.Sprintf("load order %v: %s: Find(%s) from u finds a node of module %d, which the import does not denote", p, importer, path, h.ID), nil)
+					}
 				}
 			}
 		}
@@ -539,7 +565,7 @@ func Split(j *job.Job, s *job.Sink) {
 		var all []*schema.Mod
 		moved := 0
 		for _, m := range g.Mods {
-			subs := schema.Split(r, m, 1+r.Intn(3))
+			subs := schema.Split(r, m, 1+r.Intn(5))
 			for _, sm := range subs {
 				moved += len(sm.Body.Items) + len(sm.Body.Typedefs) + len(sm.Body.Groupings)
 			}
